@@ -1,6 +1,8 @@
 import CacheVerif.Proofs.ConcCacheLin
 import CacheVerif.Proofs.ConcCacheSolo
 import CacheVerif.Proofs.DeepSource
+import CacheVerif.Proofs.DeepTrace
+import CacheVerif.Proofs.DeepTraceOf
 /-!
 # C02 — concurrent Cache/CacheOf calls are linearizable against the TTL-map semantics
 
@@ -179,5 +181,18 @@ theorem C02_solo_is_source (g : G K V) (op : COp K V) (T : Deep.Twin K V) (hT : 
       (Deep.deepStep T (view g) (toSpec op)).map fun r => (r.1, r.2.cbs, Pc.ret, some r.2.out) := by
   obtain ⟨cs, h⟩ := solo_eq_m2 g op
   exact ⟨cs, by rw [h, DeepSource.step _ _ T hT]; rfl⟩
+
+/-- **the steps of M5 are the atomic actions of the source text.**  For every state and every call: the actions of
+a thread of M5 that runs the call alone — one per step: a call on the underlying map with its key, a clock read or a
+setting access outside a closure that runs under a bucket lock, a traversal visit, an evicted-callback invocation —
+are exactly, in order, the actions the interpreter records when it runs the method body printed from the working tree
+(either file).  A closure handed to `Compute` is one action; a call that the source splits differently (a second map
+call, a clock read moved out of a closure) no longer matches. -/
+theorem C02_steps_are_source_actions (g : G K V) (op : COp K V) :
+    (∃ cs, DeepTrace.soloTrace g L.init (Proofs.ConcCacheSolo.start op :: cs) =
+      (Deep.deepTrace Deep.twinMapTr (view g) (toSpec op)).map (·.2.2)) ∧
+    (∃ cs, DeepTrace.soloTrace g L.init (Proofs.ConcCacheSolo.start op :: cs) =
+      (Deep.deepTrace Deep.twinMapOfTr (view g) (toSpec op)).map (·.2.2)) :=
+  ⟨DeepTrace.trace_eq g op, DeepTraceOf.trace_eq g op⟩
 
 end Props.C02
